@@ -581,3 +581,61 @@ Qed.
 (* a named condition is handed back exactly as stored *)
 Lemma obs_named t : t_cond t <> [] -> obs t = t.
 Proof. intro H. unfold obs. apply beqb_neq in H. rewrite H. reflexivity. Qed.
+
+(* ---- large ObjectIDs sets: only membership of the STORED object ids (and emptiness) matters ---- *)
+
+Definition oids_equiv (s : store) (o o' : option (list bytes)) : Prop :=
+  match o, o' with
+  | None, None => True
+  | Some l, Some l' => null l = null l' /\ forall t, In t s -> bmem (t_oid t) l = bmem (t_oid t) l'
+  | _, _ => False
+  end.
+
+Definition with_oids (f : rswu_filter) (o : option (list bytes)) : rswu_filter :=
+  mkSF (sf_otype f) (sf_rel f) (sf_users f) o (sf_conds f).
+
+Lemma m_rswu_loop_oids s f o' :
+  oids_equiv s (sf_oids f) o' -> m_rswu_loop s f = m_rswu_loop s (with_oids f o').
+Proof.
+  intro H. induction s as [|t s IH]; simpl; [reflexivity|].
+  assert (Hs : oids_equiv s (sf_oids f) o').
+  { unfold oids_equiv in *. destruct (sf_oids f), o'; auto. destruct H as [H1 H2]. split; auto.
+    intros t' Ht'. apply H2. right. exact Ht'. }
+  rewrite (IH Hs).
+  assert (Ht : (match sf_oids f with None => false | Some l => negb (m_contains l (t_oid t)) end) =
+               (match o' with None => false | Some l => negb (m_contains l (t_oid t)) end)).
+  { unfold oids_equiv in H. destruct (sf_oids f), o'; try contradiction; [|reflexivity].
+    destruct H as [_ H2]. unfold m_contains. unfold bmem in H2. rewrite (H2 t (or_introl eq_refl)). reflexivity. }
+  rewrite Ht. reflexivity.
+Qed.
+
+Lemma rswu_oids_equiv s f o' :
+  oids_equiv s (sf_oids f) o' ->
+  rswu_spec s f = rswu_spec s (with_oids f o') /\
+  memory_rswu s f = memory_rswu s (with_oids f o') /\
+  sql_rswu s f = sql_rswu s (with_oids f o') /\
+  flag_rswu_empty_object_ids f = flag_rswu_empty_object_ids (with_oids f o').
+Proof.
+  intro H. repeat split.
+  - unfold rswu_spec. f_equal. apply filter_ext_in. intros t Ht. unfold rswu_pred. simpl.
+    do 3 f_equal. unfold oids_equiv in H. unfold oids_ok.
+    destruct (sf_oids f), o'; try contradiction; [|reflexivity]. destruct H as [_ H2]. auto.
+  - unfold memory_rswu. rewrite (m_rswu_loop_oids _ _ _ H). reflexivity.
+  - unfold sql_rswu. f_equal. apply filter_ext_in. intros t Ht. unfold sql_rswu_where. simpl.
+    do 2 f_equal. unfold oids_equiv in H. unfold sq_rswu_oids.
+    destruct (sf_oids f) as [l|], o' as [l'|]; try contradiction; [|reflexivity].
+    destruct H as [H1 H2]. specialize (H2 t Ht). unfold bmem in H2.
+    destruct l, l'; try discriminate; [reflexivity|]. exact H2.
+  - unfold flag_rswu_empty_object_ids. simpl. unfold oids_equiv in H.
+    destruct (sf_oids f) as [l|], o' as [l'|]; try contradiction; [|reflexivity].
+    destruct H as [H1 _]. destruct l, l'; try discriminate; reflexivity.
+Qed.
+
+(* a 3-element stand-in for a big set: the stored ids it contains plus one id that is not stored *)
+Example rswu_oids_equiv_nonvacuous :
+  oids_equiv w_store (Some [b_2; [33; 48]; [33; 49]; [126; 48]; [126; 49]]) (Some [b_2; [33; 48]]) /\
+  rswu_spec w_store (mkSF b_doc b_viewer [mkUser b_user star []; mkUser b_user b_a []] (Some [b_2; [33; 48]]) []) = [w_t4].
+Proof.
+  split; [|vm_compute; reflexivity]. split; [reflexivity|].
+  intros t [<-|[<-|[<-|[<-|[]]]]]; vm_compute; reflexivity.
+Qed.
